@@ -40,7 +40,7 @@ def demo_cmd(out):
     if m:
         return "cargo test --offline -p %s --test %s" % (m.group(2), m.group(3))
     notes = open(os.path.join(out, "notes.md")).read()
-    m = re.search(r"`(cargo test [^`]+)`", notes)
+    m = re.search(r"`(?:[^`]*?&& )?(?:CARGO_NET_OFFLINE=true )?(cargo test [^`]+)`", notes)
     return m.group(1) if m else None
 
 
@@ -125,6 +125,8 @@ def main():
                 "the patch; demonstration passes without it and fails with it)", "confirm": e.get("confirm"),
                 "detected_by": e.get("detect"), "needs": notes[:1500]}
         keep(pid, mk, info)
+    d = load()          # merge: several instances may run in parallel
+    d.setdefault(key, {}).update(e)
     save(d)
 
 
